@@ -441,8 +441,15 @@ Section Proto.
       | Ok _ =>
         match sl_state r with
         | StI2 =>
+          (* the context of a send for which a payment proof was requested is never an invoice
+             issuer's: an Invoice2-labelled reply for it is a slate in the wrong state (a [fix:]
+             for C11; before it the branch below ran without any proof check) *)
+          match cx_pp_index c with
+          | Some _ => (w, Err ESlateState)
+          | None =>
           match finalize_core w r c true with
           | Ok (w', t) => (w', Ok t) | Err e => (w, Err e) | Panic q => (w, Panic q)
+          end
           end
         | StS2 =>
           if has_inputs r then (w, Err EGeneric)
